@@ -250,7 +250,8 @@ class Report:
         return "new"
 
     def finish(self):
-        ev_dir = os.path.join(VERIF, "evidence")
+        # (VERIF_EVIDENCE_DIR is only used by the seeded-change runner, which must not disturb the committed evidence)
+        ev_dir = os.environ.get("VERIF_EVIDENCE_DIR") or os.path.join(VERIF, "evidence")
         os.makedirs(os.path.join(ev_dir, "replay"), exist_ok=True)
         cov = dict(self.coverage)
         cov.setdefault("queries", self.queries)
